@@ -2,7 +2,7 @@
 # miri/run.sh <scenario> <seed-from> <seed-to>   -> prints "<scenario> ok=<n> of <m>" and any Miri error
 cd "$(dirname "$0")" || exit 2
 SC="$1"; A="${2:-0}"; B="${3:-8}"
-export MIRIFLAGS="-Zmiri-many-seeds=$A..$B -Zmiri-tree-borrows"
+export MIRIFLAGS="-Zmiri-many-seeds=$A..$B -Zmiri-tree-borrows -Zmiri-preemption-rate=0.1"
 EXTRA=()
 if [ -n "${VERIF_REPO:-}" ]; then
   EXTRA+=(--config "paths=[\"$VERIF_REPO\"]")
